@@ -19,6 +19,8 @@ fn main() {
         .map(|v| v as u64)
         .unwrap_or(0);
     let mut replay: Option<PathBuf> = None;
+    let mut xemit: Option<PathBuf> = None;
+    let mut xconsume: Option<PathBuf> = None;
     let mut i = 1;
     while i < args.len() {
         match args[i].as_str() {
@@ -33,6 +35,14 @@ fn main() {
             "--replay" => {
                 i += 1;
                 replay = Some(PathBuf::from(&args[i]));
+            }
+            "--xbuild-emit" => {
+                i += 1;
+                xemit = Some(PathBuf::from(&args[i]));
+            }
+            "--xbuild-consume" => {
+                i += 1;
+                xconsume = Some(PathBuf::from(&args[i]));
             }
             other => {
                 eprintln!("unknown argument {other}");
@@ -49,6 +59,17 @@ fn main() {
     let verif_dir = PathBuf::from(std::env::var("VERIF_DIR").unwrap_or_else(|_| "/verif".into()));
     install_panic_hook();
     vverif::gen::csv::self_test();
+
+    if let Some(dir) = xemit.as_ref().or(xconsume.as_ref()) {
+        let n = if tier == Tier::Quick { 60 } else { 600 };
+        match vverif::props::xbuild(id, xemit.is_some(), dir, seed, n) {
+            Ok(()) => std::process::exit(0),
+            Err(e) => {
+                println!("INCONCLUSIVE property={id} cross-build exchange: {e}");
+                std::process::exit(2);
+            }
+        }
+    }
 
     if let Some(path) = replay {
         match vverif::props::replay(id, &path) {
